@@ -94,10 +94,10 @@ fn rand_ops(r: &mut ChaChaRng, b: &mut B, m: i64, nops: usize, in_cb: bool, ncbs
                 let lc = rand_lc(r, b, m, in_cb);
                 if allow_bad && r.gen_bool(0.15) {
                     // free constraint: satisfied only by luck
-                    Op::Con { lc, fix: None, delta: None }
+                    Op::Con { lc, fix: None, delta: None, split: None }
                 } else {
                     b.nfix += 1;
-                    Op::Con { lc, fix: Some(b.nfix), delta: None }
+                    Op::Con { lc, fix: Some(b.nfix), delta: None, split: None }
                 }
             }
             81..=86 => Op::Append { label: ["app", "ctx", "x"][r.gen_range(0..3)].to_string(), data: (0..r.gen_range(0..5)).map(|_| r.gen()).collect() },
@@ -117,7 +117,7 @@ fn rand_ops(r: &mut ChaChaRng, b: &mut B, m: i64, nops: usize, in_cb: bool, ncbs
             _ => {
                 let lc = rand_lc(r, b, m, in_cb);
                 b.nfix += 1;
-                Op::Con { lc, fix: Some(b.nfix), delta: None }
+                Op::Con { lc, fix: Some(b.nfix), delta: None, split: None }
             }
         };
         ops.push(op);
@@ -184,8 +184,11 @@ pub fn gen_program(r: &mut ChaChaRng, m: i64, kind: &str, id: String) -> Program
             let (l, i) = cons_pos[r.gen_range(0..cons_pos.len())];
             let d = Some(nzval(r, m));
             let tgt = if l == 0 { &mut ops[i] } else { &mut cbs[l - 1][i] };
-            if let Op::Con { delta, .. } = tgt {
+            // the offset is sometimes spelt as a constant term of its own, before or after the satisfying constant
+            let sp = match r.gen_range(0..3) { 0 => Some("first".to_string()), 1 => Some("last".to_string()), _ => None };
+            if let Op::Con { delta, split, .. } = tgt {
                 *delta = d;
+                *split = sp;
             }
             expect_v = "reject".into();
         }
